@@ -95,6 +95,37 @@ for ename, enabled in enabled_values().items():
         "same": dec is inner, "vars_unchanged": len(inner.__postcondition_snapshots__) == n_snaps_before,
         "ok": run_call(dec, 1), "bad": run_call(dec, -1)}
 
+    # ---- a decorator (possibly disabled) stacked ABOVE a function that already carries an explicitly enabled checker
+    def pre_true(x):
+        return True
+
+    def post_true(result):
+        return True
+
+    for what, make_inner, make_deco in (
+            ("require-stacked", lambda fn: icontract.ensure(post_true, enabled=True)(fn), lambda: icontract.require(pre_pos, **kw(enabled))),
+            ("ensure-stacked", lambda fn: icontract.require(pre_true, enabled=True)(fn), lambda: icontract.ensure(post_pos, **kw(enabled))),
+            ("ensure-stacked-on-ensure", lambda fn: icontract.ensure(post_true, enabled=True)(fn), lambda: icontract.ensure(post_pos, **kw(enabled)))):
+        def f_stacked(x):
+            probe("body", None)
+            return x
+
+        inner = make_inner(f_stacked)
+        sizes_before = (len(inner.__preconditions__), len(inner.__postconditions__), len(inner.__postcondition_snapshots__))
+        keys_before = set(vars(inner))
+        try:
+            dec = make_deco()(inner)
+        except BaseException as err:  # pylint: disable=broad-except
+            REPORT["items"]["{}/function/{}".format(what, ename)] = {
+                "same": False, "vars_unchanged": False, "decoration_error": "{}: {}".format(type(err).__name__, err),
+                "ok": {"outcome": "raise", "type": type(err).__name__, "message": "decoration failed", "events": []},
+                "bad": {"outcome": "raise", "type": type(err).__name__, "message": "decoration failed", "events": []}}
+            continue
+        sizes_after = (len(inner.__preconditions__), len(inner.__postconditions__), len(inner.__postcondition_snapshots__))
+        REPORT["items"]["{}/function/{}".format(what, ename)] = {
+            "same": dec is inner, "vars_unchanged": sizes_after == sizes_before and set(vars(inner)) == keys_before,
+            "ok": run_call(dec, 1), "bad": run_call(dec, -1)}
+
     # ---- async function
     async def f_async(x):
         probe("body", None)
